@@ -53,7 +53,6 @@ def unit_pair_cases(ctx: Ctx, self, other, op: int, req):
     same = qty_cls(h, self.t) == qty_cls(h, other.t)
     lin = linear(h, qty_cls(h, self.t))
     req += [wf_unit(h, self.t), wf_unit(h, other.t),
-            wf_unit_den(h, self.t), wf_unit_den(h, other.t),
             alloc(h, M.G_OPCACHE),
             dirinv_at(h, d1), dirinv_at(h, d2),
             cacheinv_at(h, key), cacheinv_at(h, _gk)]
@@ -306,7 +305,7 @@ def pow_cases(ctx: Ctx, u, e, req, mult, guard=TRUE, ok=TRUE,
               "is non-zero")
     found, has1, zero, has2, d1, d2 = resolve(h, n, v)
     gen = z3.And(guard, e != 0, e != 1)
-    req += [wf_unit(h, u), wf_unit_den(h, u),
+    req += [wf_unit(h, u),
             z3.Implies(gen, z3.And(dirinv_at(h, d1), dirinv_at(h, d2)))]
     u1 = reg_first(h, M.G_TERMMAP, d1)
     u2 = reg_first(h, M.G_TERMMAP, d2)
